@@ -953,6 +953,7 @@ MUTANTS = [
            '            if not self.gotVersion:\n                # Only lines preceding the version string were received so\n                # far (RFC 4253 section 4.2); wait for the version string.\n                return\n', expect_rule="version/first-version-line-only"),
     Mutant("revert-F35b-scan-continues-after-version-line-structural", TR, '                    # Everything after the version line is binary packet\n                    # data, not more identification lines.\n                    break\n            else:\n                # Only lines preceding the version string were received so\n                # far (RFC 4253 section 4.2); wait for the version string.\n                return\n',
            '            if not self.gotVersion:\n                # Only lines preceding the version string were received so\n                # far (RFC 4253 section 4.2); wait for the version string.\n                return\n', expect_rule="s/version/first-version-line-only"),
+    Mutant("alignment-test-inverted", TR, "        if (packetLen + 4) % bs != 0:\n", "        if not (packetLen + 4) % bs:\n", expect_rule="s/length/block-aligned"),
 ]
 SILENT = [
     Silent("verify-result-in-named-boolean", TR, "            if not self.currentEncryptions.verify(\n                self.incomingPacketSequence, packet, macData\n            ):\n                self.sendDisconnect(DISCONNECT_MAC_ERROR, b\"bad MAC\")\n                return\n",
@@ -979,4 +980,5 @@ SILENT = [
     Silent("sequence-plain-assignment", TR, "        self.incomingPacketSequence += 1\n        return payload", "        self.incomingPacketSequence = self.incomingPacketSequence + 1\n        return payload"),
     Silent("repair-spelled-with-a-flag-test", TR, '                    break\n            else:\n                # Only lines preceding the version string were received so\n                # far (RFC 4253 section 4.2); wait for the version string.\n                return\n        packet = self.getPacket()',
            '                    break\n            if not self.gotVersion:\n                return\n        packet = self.getPacket()'),
+    Silent("alignment-remainder-as-truth-value", TR, "        if (packetLen + 4) % bs != 0:\n", "        if (packetLen + 4) % bs:\n"),
 ]
